@@ -401,24 +401,26 @@ impl<'a, 'b> SchemerContext<'a, 'b> {
                 ProperSubtype::List(bdd) => {
                     acc.insert(self.list_to_schema(bdd)?);
                 }
+                // both kinds have finitely many members: an excluded set is written as the members that remain
+                // (a bare negation would admit every other kind of value and cannot be printed)
                 ProperSubtype::VoidUndefined {
                     allowed,
                     values: value,
                 } => {
-                    for v in value {
-                        match v {
-                            VoidUndefinedSubtype::Void => {
-                                acc.insert(maybe_not(Runtype::void(), !allowed));
-                            }
-                            VoidUndefinedSubtype::Undefined => {
-                                acc.insert(maybe_not(Runtype::undefined(), !allowed));
-                            }
+                    for v in [VoidUndefinedSubtype::Void, VoidUndefinedSubtype::Undefined] {
+                        if value.contains(&v) == *allowed {
+                            acc.insert(match v {
+                                VoidUndefinedSubtype::Void => Runtype::void(),
+                                VoidUndefinedSubtype::Undefined => Runtype::undefined(),
+                            });
                         }
                     }
                 }
                 ProperSubtype::TypedArray { allowed, values } => {
-                    for kind in values {
-                        acc.insert(maybe_not(Runtype::typed_array(*kind), !allowed));
+                    for kind in TypedArrayKind::all() {
+                        if values.contains(&kind) == *allowed {
+                            acc.insert(Runtype::typed_array(kind));
+                        }
                     }
                 }
                 ProperSubtype::Map(bdd) => {
